@@ -445,10 +445,35 @@ class Prop(fw.PropBase):
             runs.append(run)
         return {'contigs': contigs, 'reads': reads, 'runs': runs, 'wild': wild}
 
+    def sweep_libs(self):
+        """small exhaustive scopes: one record per site of a short contig (every site, every bins_per_job up to
+        one job per contig and beyond), once with the site inside a 1-base record and once at the far end of a
+        4-base record"""
+        quick = self.tier == 'quick'
+        out = []
+        for b, L in ([(1, 7), (3, 10), (5, 12)] if quick else [(b, L) for b in (1, 2, 3, 5) for L in (b * 3, b * 3 + 1, 7, 10, 12)]):
+            for far in (False, True):
+                reads = []
+                for s in range(L):
+                    pos = max(0, s - 3) if far else s
+                    reads.append({'c': 0, 'pos': pos, 'len': (s - pos + 1), 'span': (s - pos + 1), 'flag': 65, 'ds': s, 'mq': 60,
+                                  'sm': ['c1', 'c2', 'c3'][s % 3], 'mp': None, 'da': None})
+                runs = []
+                for k in range(1, L // b + 3):
+                    njobs = -(-L // (b * k))
+                    order = list(range(njobs))
+                    if k % 2:
+                        order.reverse()
+                    runs.append({'b': b, 'k': k, 'mfs': 0, 'threads': 1, 'min_mq': 50, 'dedup': True, 'ignore_mp': False,
+                                 'key_tags': False, 'sched': order if k % 3 else None})
+                out.append({'contigs': [['chr1', L]], 'reads': reads, 'runs': runs, 'wild': False, 'sweep': True})
+        return out
+
     def gen_all(self):
         quick = self.tier == 'quick'
         rng = self.rng
-        libs = [self.gen_lib(wild=(i % 4 == 3)) for i in range(40 if quick else 400)]
+        libs = [self.gen_lib(wild=(i % 4 == 3)) for i in range(70 if quick else 1500)]
+        libs += self.sweep_libs()
         # degenerate configurations (outside the precondition; model and code must still agree)
         odd = self.gen_lib(wild=False)
         odd['runs'] = [dict(odd['runs'][0], b=bb, k=kk, threads=1, sched=None)
@@ -567,7 +592,9 @@ class Prop(fw.PropBase):
                          'n_reads': len(flat[i][0]['reads']), 'impl_cells': flat[i][2].get('cells', flat[i][2])[:6]}
                         for i in (0, len(flat) // 2, len(flat) - 8)],
             'exhaustive': False,
-            'exhaustive_scopes': 'read_counts: all 2^8 x 3 x 2 flag/option combinations; job lists: all lengths 0..3*b*k+2 for b*k <= 12',
+            'site_sweep_libraries': sum(1 for l in libs if l.get('sweep')),
+            'exhaustive_scopes': 'site sweeps: every site of a short contig x every bins_per_job 1..L/b+2 (mfs=0); '
+                                 'read_counts: all 2^8 x 3 x 2 flag/option combinations; job lists: all lengths 0..3*b*k+2 for b*k <= 12',
         })
         if not self.model_ok:
             return
